@@ -41,9 +41,9 @@ quiet('C18', 'tmp-derived-from-arg', (W, 'std::fstream f(filePath, std::ios::out
 quiet('C18', 'debug-cout', ('src/Data.cpp', '    if (idx == SIZE_MAX) {', '    std::cout << "";\n    if (idx == SIZE_MAX) {'))
 # ---- C08
 APP = '''        _frames.resize(_frames.size() + 1);
-        _frames.back().add(frame);'''
+        _frames.back().add(source);'''
 fire('C08', 'push-back-alias', ('src/Data.cpp', APP, '        _frames.push_back(frame);'))
-fire('C08', 'elem-assign', ('src/Data.cpp', '        _frames[idx].add(frame);', '        _frames[idx] = frame;'))
+fire('C08', 'elem-assign', ('src/Data.cpp', '        _frames[idx].add(source);', '        _frames[idx] = frame;'))
 fire('C08', 'add-copies-handle', ('src/Frame.cpp', '    add(frame.points(), frame.analogs());', '    _points = frame._points; add(frame.analogs());'))
 fire('C08', 'resize-with-value', ('src/Data.cpp', '            _frames.resize(idx+1);', '            _frames.resize(idx+1, frame);'))
 quiet('C08', 'push-back-fresh', ('src/Data.cpp', '        _frames.resize(_frames.size() + 1);', '        _frames.push_back(ezc3d::DataNS::Frame());'))
@@ -116,8 +116,8 @@ fire('C13', 'dangling-ref', ('src/Header.cpp', '''const std::vector<float>& ezc3
 {
     std::vector<float> copy(_eventsTime);
     return copy;'''))
-fire('C13', 'guard-dropped', ('src/Points.cpp', '''        if (idx >= nbPoints())
-            _points.resize(idx+1);''', ''))
+fire('C13', 'guard-dropped', ('src/Analogs.cpp', '''        else
+            _subframe[idx] = subframe;''', '''        _subframe[idx + 1] = subframe;'''))
 fire('C13', 'loop-le', ('src/Header.cpp', 'for (unsigned int i = 0; i < _eventsTime.size(); ++i)\n        f.write', 'for (unsigned int i = 0; i <= _eventsTime.size(); ++i)\n        f.write'))
 # ---- C06
 fire('C06', 'gt-instead-of-ge', ('src/Points.cpp', 'if (idx >= nbPoints())', 'if (idx > nbPoints())'))
@@ -249,6 +249,17 @@ quiet('C13', 'reference-no-growth', (W, SETL, """        ezc3d::ParametersNS::Gr
 fire('C17', 'overstrict-guard', ('src/Parameter.cpp', "    int nCharName(static_cast<int>(name().size()));", """    if (name().size() > 100)
         throw std::range_error("name too long");
     int nCharName(static_cast<int>(name().size()));"""))
+
+fire('C13', 'argument-aliases-element', ('src/Points.cpp', """        if (idx >= nbPoints()){
+            // point may be an element of _points, copy it before the vector grows
+            const ezc3d::DataNS::Points3dNS::Point source(point);
+            _points.resize(idx+1);
+            _points[idx] = source;
+        }
+        else
+            _points[idx] = point;""", """        if (idx >= nbPoints())
+            _points.resize(idx+1);
+        _points[idx] = point;"""))
 
 def main():
     made = 0
